@@ -223,7 +223,8 @@ def cases(tier, seed=0):
                 out.append(factor_case(fk, "multiply", True, True, 3, 1, 2, timeout=1800))
                 out.append(factor_case(fk, "hadamard", True, True, 3, 2, 2, timeout=1800))
             out.append(factor_case(fk, "multiply", True, True, 2, 3, 3, timeout=1800))
-            out.append(factor_case(fk, "multiply", False, False, 3, 1, 2, timeout=1800))
+            if fk != "onerank":
+                out.append(factor_case(fk, "multiply", False, False, 3, 1, 2, timeout=1800))
     for what in ("pdf_basic", "pdf_marginal", "pdf_condition", "pdf_kl", "pdf_linear_sum", "pdf_update", "measure_basic", "measure_product", "measure_multiply"):
         out.append(diag_case(what, 2, 2))
         if tier == "thorough" or what in ("pdf_marginal", "pdf_condition"):
